@@ -369,6 +369,12 @@ func runC17(args []string) int {
 			}
 		}
 	}
+	for _, ks := range sets {
+		i, j := len(ks.vals)/3, 2*len(ks.vals)/3
+		r.Sample(map[string]any{"kind": ks.name, "a": ks.text[i], "b": ks.text[j],
+			"enc_a_asc": fmt.Sprintf("%x", encoding.EncodeFieldValue(nil, ks.vals[i], false)), "enc_b_asc": fmt.Sprintf("%x", encoding.EncodeFieldValue(nil, ks.vals[j], false)),
+			"enc_a_desc": fmt.Sprintf("%x", encoding.EncodeFieldValue(nil, ks.vals[i], true))})
+	}
 	e2e := c17EndToEnd(r)
 	r.Coverage["evaluations"] = evals + e2e
 	r.Coverage["distinct_nontrivial"] = nontrivial
